@@ -100,6 +100,22 @@ def run(ctx):
     for kind in ('salsa', 'chacha'):
         for klen, rounds in ((32, 20), (16, 8)):
             ev += stream_history(kind, rb(klen), rounds, rb); ctx.mark((kind, 'nonce object edited in place / refused nonce', klen))
+    # one object, 26 calls (nonces and lengths vary, enc and dec alternate): every call is still M xor keystream(key, nonce) from block 0
+    from crysp.bits import Bits as _Bits
+    from crysp.salsa20 import Salsa20 as _S
+    from crysp.chacha import Chacha as _C
+    for kind in ('salsa', 'chacha'):
+        key = rb(32)
+        try: o = (_S if kind == 'salsa' else _C)(_Bits(key, bitorder=1), 8)
+        except Exception: o = None
+        for j in range(26 if o is not None else 0):
+            nonce = rb(8); m = rb(1 + (j * 37) % 150); opn = 'dec' if j % 3 == 2 else 'enc'
+            e = dict(op=kind, key=B(key), nonce=B(nonce), rounds=8, ctr0=limbs(0, 4), m=B(m), raised='', obs=[], dir=opn, nth_call=j + 1)
+            try:
+                r = getattr(o, opn)(_Bits(nonce, bitorder=1), m); e['obs'] = B(r) if isinstance(r, bytes) else [-1]
+            except Exception as ex: e['raised'] = type(ex).__name__
+            ev.append(e)
+        ctx.mark((kind, 'many calls on one object'))
     from crysp.salsa20 import Salsa20
     for cls in range(8 if big else 4):
         x = [bytes(64), b'\xff' * 64, bytes(range(64)), rb(64), rb(64), rb(64), rb(64), rb(64)][cls]
@@ -134,6 +150,7 @@ def run(ctx):
             traces.append(rc4_trace(key, [rb(c) for c in cuts])); ctx.mark(('rc4', kl, str(cuts)))
         traces.append(rc4_trace(key, [b'']))                                   # the empty message
         traces.append(rc4_trace(key, [rb(1), rb(300), rb(2), rb(150)]))          # a deviation of the permutation may show only dozens of bytes after the cut
+    traces.append(rc4_trace(rb(16), [rb((j * 5) % 11) for j in range(45)])); ctx.mark(('rc4', 'many pieces'))      # 45 calls on one object
     # one call on several KiB (the index i wraps every 256 bytes), judged in 512-byte segments along the continuous stream, then a second call
     def rc4_long(key, n1, n2):
         t = [dict(op='rc4_new', key=B(key), raised='')]
